@@ -274,12 +274,30 @@ func runC09(c C09Case, rounds int, rec *recorder) error {
 						}
 					default:
 						if (gi+r)%2 == 0 {
+							// (a bundle of many files every other time: small files of their own namespaces are added)
+							onames, osrcs := onames, osrcs
+							if (gi+r)%8 < 4 {
+								onames, osrcs = append([]string{}, onames...), append([]string{}, osrcs...)
+								for pi := 0; pi < 3+(gi+r)%5; pi++ {
+									onames = append(onames, fmt.Sprintf("pad%d.soy", pi))
+									osrcs = append(osrcs, fmt.Sprintf("{namespace zz.pad%d}\n\n/** */\n{template .t}\npad {$ij.x ?: 'none'}\n{/template}\n", pi))
+								}
+							}
 							if (gi+r)%4 == 0 && len(osrcs) > 0 {
 								// a bundle that is rejected (a syntax error in the middle of a file, text and
 								// tags on the lines after it): error reporting is concurrent use too
 								bad := append([]string{}, osrcs...)
-								bad[0] = strings.Replace(bad[0], "{template ", "/** */\n{template .zzBad"+strconv.Itoa(gi)+"}\n{if $a == }\nline one\n  line two\n{/if}\nmore\n{/template}\n\n/** */\n{template ", 1)
-								compileBundle(onames, bad, c.Other.Prog.Globals)
+								if strings.Contains(bad[0], "{template ") {
+									bad[0] = strings.Replace(bad[0], "{template ", "/** */\n{template .zzBad"+strconv.Itoa(gi)+"}\n{if $a == }\nline one\n  line two\n{/if}\nmore\n{/template}\n\n/** */\n{template ", 1)
+									if _, berr, bpn := compileBundle(onames, bad, c.Other.Prog.Globals); berr == nil && bpn == nil {
+										mu.Lock()
+										if failure == nil {
+											failure = fmt.Errorf("goroutine %d: a bundle of %d files whose first file has a syntax error was compiled without an error while other goroutines compile and render", gi, len(bad))
+										}
+										mu.Unlock()
+										return
+									}
+								}
 								break
 							}
 							compileBundle(onames, osrcs, c.Other.Prog.Globals)
